@@ -25,6 +25,9 @@ type Event struct {
 	Flags    int    `json:"flags"`
 	Ret      int64  `json:"ret"` // return value (negative errno on failure)
 	Injected bool   `json:"injected,omitempty"`
+	// Unfinished: the call was entered but the process ended (signal, exit of another thread)
+	// before its return was seen; whether it took effect is not known.
+	Unfinished bool `json:"unfinished,omitempty"`
 }
 
 // Plan selects a crash or fault point (1-based index of relevant calls; 0 = none).
@@ -279,6 +282,12 @@ func run(bin string, args []string, dir string, stdin []byte, relevant func(stri
 		}
 	}
 done:
+	for _, ev := range pending {
+		if ev != nil && plan.KillAt == 0 { // a kill at the entry of a call prevents it; anything else may have happened
+			ev.Unfinished = true
+			res.Events = append(res.Events, *ev)
+		}
+	}
 	cmd.Process.Release()
 	res.Stdout, _ = os.ReadFile(so.Name())
 	res.Stderr, _ = os.ReadFile(se.Name())
